@@ -130,6 +130,7 @@ type Sched struct {
 	lastUserStep int
 	enbuf     []*G
 	inhibit   int
+	curWhat   string
 }
 
 // S is the active scheduler (nil = pass-through mode).
@@ -450,6 +451,7 @@ func (s *Sched) point(what string) {
 		return
 	}
 	en := s.enabled()
+	s.curWhat = what
 	next, adv := s.opt.Chooser.Pick(s.steps, en, me, s.pendingTimer() != nil)
 	if adv {
 		s.fireNextTimer()
@@ -848,4 +850,12 @@ func caller() string {
 			return ""
 		}
 	}
+}
+
+// CurWhat names the operation at the current scheduling point (for label-aware choosers).
+func CurWhat() string {
+	if s := S; s != nil {
+		return s.curWhat
+	}
+	return ""
 }
